@@ -42,7 +42,18 @@ theorem servo_clamped (s : FServo K) (op : FServoOp K) (ha : s.minA < s.maxA) (h
     let s' := (FServo.step s op).st
     s.minA ≤ s'.angle ∧ s'.angle ≤ s.maxA ∧ s.minP ≤ s'.pulse ∧ s'.pulse ≤ s.maxP ∧
     s'.minA = s.minA ∧ s'.maxA = s.maxA ∧ s'.minP = s.minP ∧ s'.maxP = s.maxP := by
-  sorry
+  open Lemmas.C04 Lemmas.C19 in
+  cases op with
+  | write a =>
+    simp only [FServo.step]
+    obtain ⟨q1, q2⟩ := clampTo_bounds ha.le a.toF
+    exact ⟨q1, q2, (clampTo_bounds hp.le _).1, (clampTo_bounds hp.le _).2, rfl, rfl, rfl, rfl⟩
+  | writeUs p =>
+    have hz : FServo.isZ (s.maxP - s.minP) = false := isZ_false (sub_pos.mpr hp).ne'
+    simp only [FServo.step, hz, Bool.false_eq_true, if_false]
+    obtain ⟨q1, q2⟩ := clampTo_bounds hp.le p.toF
+    obtain ⟨q3, q4, _⟩ := affine_map hp ha q1 q2
+    exact ⟨q3, q4, q1, q2, rfl, rfl, rfl, rfl⟩
 
 def FMotorInv (m : FMotor K) : Prop := (-1 : K) ≤ m.speed ∧ m.speed ≤ 1
 
@@ -124,7 +135,15 @@ theorem rgb_fade_step_close (cur goal i n : Int) (hn : 0 < n) (hi : 0 ≤ i ∧ 
 /-- the full statement (equal at every step) fails on a tie: known finding K04a -/
 theorem rgb_fade_tie_counterexample :
     FRgb.fadeChan 0 1 1 2 = 1 ∧ Host.RGB.interp (α := K) 0 1 1 2 = 0 := by
-  sorry
+  open Lemmas.C04 Lemmas.C19 in
+  constructor
+  · decide
+  · rw [interp_eq]
+    have h : ((0 : Int) : K) + (((1 - 0) * 1 : Int) : K) / ((2 : Int) : K) = 1 / 2 := by norm_num
+    rw [h]
+    unfold roundHEK
+    simp only [floor_half]
+    norm_num
 
 /-! ### Servo -/
 def servoOp : Host.ServoOp K → FServoOp K
@@ -141,7 +160,31 @@ theorem servo_agrees (f : FServo K) (h : Host.Servo K) (op : Host.ServoOp K) (hr
       (match op with
        | .write _ => [.servoWrite (Num.trunc ((Host.Servo.step h op).1.angle + 1 / 2))]
        | .writeUs _ => [.servoUs (Num.trunc ((Host.Servo.step h op).1.pulse + 1 / 2))]) := by
-  sorry
+  open Lemmas.C04 Lemmas.C19 in
+  obtain ⟨fa0, fa1, fp0, fp1, fa, fp⟩ := f
+  obtain ⟨ha0, ha1, hp0, hp1, hang, hpul⟩ := h
+  obtain ⟨r1, r2, r3, r4, r5, r6⟩ := hrel
+  simp only at r1 r2 r3 r4 r5 r6 ha hp
+  subst r1 r2 r3 r4 r5 r6
+  cases op with
+  | write a =>
+    simp only [Host.Servo.step] at hok ⊢
+    split_ifs at hok ⊢ with hb
+    simp only [Val.between, Bool.and_eq_true, le_iff, toF_flt] at hb
+    obtain ⟨q1, q2, _⟩ := affine_map ha hp hb.1 hb.2
+    have hz : FServo.isZ (fa1 - fa0) = false := isZ_false (sub_pos.mpr ha).ne'
+    simp only [servoOp, FServo.step, hz, clampTo_id hb.1 hb.2, Host.Servo.angleToPulse, lit_half,
+      Bool.false_eq_true, if_false]
+    rw [clampTo_id q1 q2]
+    exact ⟨⟨rfl, rfl, rfl, rfl, rfl, rfl⟩, rfl⟩
+  | writeUs p =>
+    simp only [Host.Servo.step] at hok ⊢
+    split_ifs at hok ⊢ with hb
+    simp only [Val.between, Bool.and_eq_true, le_iff, toF_flt] at hb
+    have hz : FServo.isZ (fp1 - fp0) = false := isZ_false (sub_pos.mpr hp).ne'
+    simp only [servoOp, FServo.step, hz, clampTo_id hb.1 hb.2, Host.Servo.pulseToAngle, lit_half,
+      Bool.false_eq_true, if_false]
+    exact ⟨⟨rfl, rfl, rfl, rfl, rfl, rfl⟩, rfl⟩
 
 /-! ### DCMotor -/
 def motorOp : Host.MotorOp K → FMotorOp K
@@ -175,7 +218,8 @@ theorem motor_agrees (f : FMotor K) (h : Host.Motor K) (op : Host.MotorOp K) (hr
 theorem motor_applied_getter (f : FMotor K) (h : Host.Motor K) (hrel : RelMotor f h)
     (hinv : h.applied = (if h.inverted then -h.speed else h.speed)) :
     (if f.inverted then -f.speed else f.speed) = h.applied := by
-  sorry
+  obtain ⟨hs, hi, _⟩ := hrel
+  rw [hinv, hs, hi]
 
 /-- `set_speed`: direction pins and duty are the image of the host's applied speed -/
 theorem motor_set_speed_pins (f : FMotor K) (h : Host.Motor K) (v : Val K) (hrel : RelMotor f h)
@@ -192,14 +236,47 @@ theorem motor_delays (f : FMotor K) (d v : Val K) (hd : 0 ≤ d.toF) :
     delaysOf (FMotor.step f (.runFor d v)).evs = [Num.trunc d.toF] ∧
     (∀ t, delaysOf (FMotor.step f (.ramp t d)).evs =
       if 0 < d.toF then List.replicate 20 (Num.trunc (d.toF / 20)) else []) := by
-  sorry
+  open Lemmas.C04 Lemmas.C19 in
+  have hdur : (if d.toF < (fzero : K) then fzero else d.toF) = d.toF := by
+    rw [fzero_eq, if_neg (not_lt.mpr hd)]
+  constructor
+  · show delaysL _ = _
+    simp only [FMotor.step, drive_eq, hdur, FMotor.brakeEvs, delaysL_append, delaysL_driveEvs]
+    simp
+  · intro t
+    show delaysL _ = _
+    have h20 : (0 : K) < d.toF / ((20 : Int) : K) ↔ 0 < d.toF := by
+      push_cast
+      constructor
+      · intro h; by_contra hc
+        have : d.toF = 0 := le_antisymm (not_lt.mp hc) hd
+        rw [this] at h; simp at h
+      · intro h; positivity
+    simp only [FMotor.step, hdur, rampLoop_eq, delaysL_rampEvs, ofInt_eq, List.nil_append, h20]
+    push_cast
+    rfl
 
 /-- the tiny-speed disagreement: known finding K04b -/
 theorem motor_tiny_speed_counterexample :
     let v : Val K := .flt (1 / 1000)
     (Host.Motor.step (Host.Motor.init : Host.Motor K) (.setSpeed v)).st.mode = .drive ∧
     (FMotor.step (FMotor.init (2, 3, 6) : FMotor K) (.setSpeed v)).st.mode = .coast := by
-  sorry
+  open Lemmas.C04 Lemmas.C19 in
+  intro v
+  have hc : Host.Motor.clamp v = 1 / 1000 := by
+    rw [clamp_eq]; simp only [v, toF_flt]; norm_num
+  have hc' : FMotor.clampSpeed (1 / 1000 : K) = 1 / 1000 := by
+    rw [clampSpeed_eq]; norm_num
+  have hd : dutyL (1 / 1000 : K) = 0 := by
+    unfold dutyL
+    rw [abs_of_pos (by norm_num), trunc_nonneg_eq (by norm_num)]
+    have : ⌊(1 / 1000 : K) * 255 + 1 / 2⌋ = 0 := by
+      rw [Int.floor_eq_iff]; constructor <;> norm_num
+    rw [this]; rfl
+  constructor
+  · simp only [Host.Motor.step, host_setSpeed_eq, hc, Host.Motor.init, effOf]
+    norm_num
+  · simp only [FMotor.step, drive_eq, driveSt, FMotor.init, effOf, v, toF_flt, hc', Bool.false_eq_true, ↓reduceIte, hd]
 
 example : (Host.Led.step ({} : Host.Led) (.blink (.int 5) (.int 2) : Host.LedOp K)).res = .ok := by
   simp [Host.Led.step, Val.lt, Val.le]
